@@ -40,6 +40,17 @@ CHECKS = {
  "C15": dict(engine="store-corrupt", cat="fault_enumeration", ref="DESIGN.md 6.15",
    technique="deterministic simulation of bytes at rest: complete enumeration of single-byte substitutions, truncations and extensions per exported blob, plus byzantine envelope rewrites",
    text="Per exported blob (both Document and DocumentEx forms, seeded file subsets, real and synthetic evidence of each kind) the fault-free round trip must reproduce file set, bytes, parsed JSON view and evidence; then every byte position x {xor 01, xor 80, 00, FF} (all values on the envelope head and tail), every truncation length, extensions, foreign magics and newer versions at each nesting level are applied: the import must be rejected or yield exactly the original content."),
+ "C01": dict(engine="pki-forgery (+ store-verify)", cat="exploration", ref="DESIGN.md 6.1",
+   technique="deterministic simulation of byzantine parties (issuer, chip file store, trust-store operator) and at-rest corruption, with by-construction verdicts from the issuer's region map",
+   text="Each run builds a genuine world with the simulated issuer (accepted first), then applies exactly one forgery or drift fault (A1-A10: DG flips/replacement/injection, altered hash list, re-signing by untrusted chains in five variants, anchor and DS attribute faults, signing time outside a validity window by seconds, country mismatch, the same on CardSecurity, master list faults, random byte substitutions classified by region) and takes the verdict through the real PassiveAuth / CreateCertPoolFromSignedData and, in the store engine, the offline verifier. Acceptance in a must-reject class is the violation. "
+        "Applicability note: the deciding faults are byzantine behaviour of parties and corruption of durable state, not arbitrary byte strings (DESIGN.md 6.1)."),
+ "C02": dict(engine="hostile-chip + session-sweep", cat="exploration", ref="DESIGN.md 6.2",
+   technique="deterministic simulation of adversarial chips end to end (live and offline) plus exhaustive sweep of the step-outcome combinations against the gating invariant",
+   text="Ten adversarial chip personalisations (clones without keys, substituted AA/CA/CAM keys with untouched or untrusted-re-signed SOD, withheld DG14/DG15, CardAccess not contained in DG14, CardSecurity that does not verify) crossed with trusted/untrusted issuers are read end to end, then the serialised result is verified offline; the summary must not be trusted / chip-authentic as the statement lists. "
+        "The gating invariant (DataTrusted => PA and completeness; named mechanism => that protocol, PA, and CardSec for CAM) is evaluated on every DocumentEx and swept over all 324 outcome combinations."),
+ "C09": dict(engine="pki-profile", cat="exploration", ref="DESIGN.md 6.9",
+   technique="deterministic simulation of the issuer over the issuing-profile matrix (fault-free twin of C01)",
+   text="The simulated issuer (own X.509/CMS writers and signers) issues documents over the profile matrix - CSCA and DS keys RSA 1024-4096 / all 11 curves named and explicit, PKCS#1 v1.5 / PSS / ECDSA, SHA-1..SHA-512, both SID forms, LDS SO v0/v1, signing time absent / inside / exactly at the DS and CSCA window edges, NULL-less digest identifiers, indefinite lengths, extra certificates, re-ordered or UTF8 names, decoy and same-key-identifier anchors, CardSecurity - and the real PassiveAuth must succeed and return the [DS, CSCA] chain."),
 }
 
 NOT_APPLICABLE = {
@@ -93,6 +104,9 @@ def main():
             {"name": "e2e-faults", "path": "sim/engines/e2efaults.go", "serves_properties": ["C11"], "kind_free_text": "deterministic simulation with per-exchange link fault plans over the full read"},
             {"name": "store-verify", "path": "sim/engines/storeeng.go", "serves_properties": ["C14"], "kind_free_text": "deterministic simulation: capture -> simulated store (byzantine rewrite) -> offline verifier"},
             {"name": "store-corrupt", "path": "sim/engines/storeeng.go", "serves_properties": ["C15"], "kind_free_text": "deterministic simulation of bytes at rest: bit-rot, torn writes, extension, envelope rewrite"},
+            {"name": "pki-forgery", "path": "sim/engines/pkiworld.go", "serves_properties": ["C01"], "kind_free_text": "byzantine issuer / chip / trust-store operator faults with by-construction verdicts"},
+            {"name": "pki-profile", "path": "sim/engines/pkiworld.go", "serves_properties": ["C09"], "kind_free_text": "fault-free issuing-profile matrix"},
+            {"name": "hostile-chip", "path": "sim/engines/hostile.go", "serves_properties": ["C02"], "kind_free_text": "adversarial chip personalisations read end to end, live and offline; plus session-sweep"},
             {"name": "readfile", "path": "sim/engines/readfile.go", "serves_properties": ["C13"], "kind_free_text": "deterministic simulation: real ReadFile vs reference chip with response-splitting behaviours"},
         ],
         "checks": checks,
